@@ -164,7 +164,9 @@ class Gamma:
         head = ["<mosID>mos.verif</mosID>"]
         if rh.random() < 0.6:
             head.append("<ncsID>ncs.verif</ncsID>")
-        head.append("<messageID>%d</messageID>" % message_id)
+        # a message id is a number: leading zeros or surrounding blanks do not change it
+        mid_text = ("%07d" % message_id) if rh.random() < 0.25 else (" %d " % message_id) if rh.random() < 0.15 else "%d" % message_id
+        head.append("<messageID>%s</messageID>" % mid_text)
         if rh.random() < 0.3:
             head.append("<mosMsgTime>2020-01-01T10:00:00</mosMsgTime>")
         if rh.random() < 0.2:
